@@ -12,6 +12,9 @@
 (* Every phase may contribute any subset of its possible messages; a phase  *)
 (* that itself stops at its first offender (requiredDefs, dupProps) may     *)
 (* contribute LESS when stopping early, never something else.               *)
+(* A document in which a definition is its own ancestor ("circular") makes  *)
+(* dupProps report an error, and the value checks (defaults, examples) are  *)
+(* then skipped: no validator can be built for such a definition.           *)
 (* On return, the deferred bookkeeping moves the warnings into both results.*)
 (***************************************************************************)
 EXTENDS Integers, Sequences, FiniteSets
@@ -28,8 +31,9 @@ VARIABLES pc,        \* [mode -> index of the last phase executed, 0 = start]
           errs,      \* [mode -> set of error messages accumulated]
           warns,     \* [mode -> set of warnings accumulated]
           ret,       \* [mode -> [done, errors, warnings, returnedWarnings]]
-          contrib    \* the document: [phase -> [e : SUBSET ErrMsgs, w : SUBSET WarnMsgs]] in continue mode
-vars == <<pc, errs, warns, ret, contrib>>
+          contrib,   \* the document: [phase -> [e : SUBSET ErrMsgs, w : SUBSET WarnMsgs]] in continue mode
+          circ       \* the document: a definition has a circular ancestry
+vars == <<pc, errs, warns, ret, contrib, circ>>
 Modes == {"stop", "cont"}
 
 Init == /\ pc = [m \in Modes |-> 0]
@@ -38,12 +42,17 @@ Init == /\ pc = [m \in Modes |-> 0]
         \* only the phases in Contributing report something in the bounded model (the others are transparent)
         /\ contrib \in [{Phases[i] : i \in 1..(Len(Phases) - 1)} -> [e : SUBSET ErrMsgs, w : SUBSET WarnMsgs]]
         /\ \A p \in WarnOnly : contrib[p].e = {}
+        /\ circ \in BOOLEAN
+        /\ (circ => contrib["dupProps"].e # {})          \* a circular ancestry is always reported, as an error
+        /\ (circ => contrib["defaults"] = [e |-> {}, w |-> {}] /\ contrib["examples"] = [e |-> {}, w |-> {}])
         /\ \A i \in 1..(Len(Phases) - 1) : Phases[i] \notin Contributing => contrib[Phases[i]] = [e |-> {}, w |-> {}]
 
 \* the next phase a run executes
 NextPhase(m) ==
   LET cur == IF pc[m] = 0 THEN "start" ELSE Phases[pc[m]] IN
-  IF m = "stop" /\ cur \in StopPoints /\ errs[m] # {} THEN "return" ELSE Phases[pc[m] + 1]
+  IF m = "stop" /\ cur \in StopPoints /\ errs[m] # {} THEN "return"
+  ELSE IF cur = "requiredDefs" /\ circ THEN "pathParamNames"      \* defaults and examples are skipped
+  ELSE Phases[pc[m] + 1]
 
 RunPhase(m) ==
   /\ ~ret[m].done
@@ -52,7 +61,7 @@ RunPhase(m) ==
      THEN \* deferred: errs.MergeAsWarnings(warnings); warnings.AddErrors(errs.Warnings...)
           /\ ret' = [ret EXCEPT ![m] = [done |-> TRUE, errors |-> errs[m], warnings |-> warns[m], returnedWarnings |-> warns[m]]]
           /\ pc' = [pc EXCEPT ![m] = Len(Phases)]
-          /\ UNCHANGED <<errs, warns, contrib>>
+          /\ UNCHANGED <<errs, warns, contrib, circ>>
      ELSE \E e \in SUBSET contrib[p].e, w \in SUBSET contrib[p].w :
             \* continuing: the whole contribution; stopping early: a phase may itself stop at its first offender
             /\ (m = "cont" => e = contrib[p].e /\ w = contrib[p].w)
@@ -60,7 +69,7 @@ RunPhase(m) ==
             /\ errs' = [errs EXCEPT ![m] = @ \cup e]
             /\ warns' = [warns EXCEPT ![m] = @ \cup w]
             /\ pc' = [pc EXCEPT ![m] = Index(p)]
-            /\ UNCHANGED <<ret, contrib>>
+            /\ UNCHANGED <<ret, contrib, circ>>
 Next == \E m \in Modes : RunPhase(m)
 Spec == Init /\ [][Next]_vars /\ WF_vars(Next)
 
@@ -81,13 +90,16 @@ AlwaysReturns == <>(Returned("stop") /\ Returned("cont"))
 (* Used by the trace specification: is a recorded phase list a run of the   *)
 (* machine?  q is a sequence of [p |-> phase, e |-> errors so far].         *)
 (***************************************************************************)
-IsRun(q, mode) ==
+IsRun(q, mode, circular) ==
   /\ Len(q) >= 1 /\ q[Len(q)].p = "return"
   /\ \A i \in 1..(Len(q) - 1) : q[i].p # "return"
   /\ q[1].p = "schema" \/ Len(q) = 1
   /\ \A i \in 1..(Len(q) - 1) :
        LET stopHere == mode = "stop" /\ q[i].p \in StopPoints /\ q[i].e IN
-       /\ q[i+1].p = IF stopHere THEN "return" ELSE Phases[Index(q[i].p) + 1]
+       /\ q[i+1].p = IF stopHere THEN "return"
+                    ELSE IF q[i].p = "requiredDefs" /\ circular THEN "pathParamNames"
+                    ELSE Phases[Index(q[i].p) + 1]
+       /\ (circular /\ Index(q[i].p) >= Index("dupProps") => q[i].e)   \* a circular ancestry has been reported by then
        /\ (q[i].e => q[i+1].e)                       \* errors are never retracted
   /\ \A i \in 1..Len(q) : q[i].p \in WarnOnly => (i = 1 \/ q[i].e = q[i-1].e)
 =============================================================================
